@@ -8,10 +8,10 @@ const heteroEnabled = false
 
 type t0 struct{ tr string }
 
-func composeH(n int, hit func(i int, in string) string) func(t0) string {
-	panic("hetero family not built")
-}
+func composeH(n int, hit func(i int, in string) string) func(t0) string { panic("hetero family not built") }
 
-func composeE(n int, ie func(i int, x int) error, ei func(i int, e error) int) func(int) any {
-	panic("hetero family not built")
-}
+func composeE(n int, ie func(i int, x int) error, ei func(i int, e error) int) func(int) any { panic("hetero family not built") }
+
+type ra struct{ tr string }
+
+func composeR(n, pat int, hit func(i int, in string) string) func(ra) string { panic("hetero family not built") }
